@@ -105,7 +105,9 @@ Proof. exact node_test_agrees. Qed.
     descendant-or-self, parent, ancestor, ancestor-or-self axes (abbreviated or not: [@], [.], [..]),
     any node tests with bound prefixes, steps joined by [/] or [//], relative or absolute, has the
     value XPath 1.0 prescribes: the same nodes in the same order, and the context is returned
-    unchanged.  [ParentsOk]: the dom's parent observation is the parent in the tree (decidable). *)
+    unchanged.  [ParentsOk]: the dom's parent observation is the parent in the tree (decidable; it
+    fails for documents with a document type declaration, whose row has the document as dom parent
+    but is not a node of the data model: the theorem does not speak about those documents). *)
 Theorem C05_rung1_paths_partial :
   forall (doc : xdoc), DocInv doc -> SpecShape doc -> NamesOk doc -> ParentsOk doc ->
   forall (ns : list (option str * str)), ns_lookup ns None = None ->
